@@ -70,9 +70,16 @@ func concGen(rng *Rng, i int, tier string) (*ConcCase, error) {
 }
 
 func concCoqEdges(res *ConcResult) string {
-	items := make([]string, len(res.Edges))
-	for i, e := range res.Edges {
-		items[i] = fmt.Sprintf("(%d,%d)", e.From, e.To)
+	var items []string
+	for _, e := range res.Edges {
+		seen := map[int]bool{}
+		for _, r := range e.Roles {
+			id := concRoleID[r]
+			if !seen[id] {
+				seen[id] = true
+				items = append(items, fmt.Sprintf("(%d,(%d,%d))", id, e.From, e.To))
+			}
+		}
 	}
 	var b strings.Builder
 	for i, it := range items {
@@ -102,7 +109,17 @@ func concCoqCase(c *ConcCase) string {
 		npanic++
 	}
 	var b strings.Builder
-	b.WriteString("(mkConc\n   " + concCoqEdges(res) + "\n   [" + strings.Join(cyc, "; ") + "] " + coqBool(res.Observed) + "\n   " + final + "\n   ")
+	singles := make([]string, len(concSingleRoles))
+	for i, r := range concSingleRoles {
+		singles[i] = fmt.Sprint(r)
+	}
+	ranks := []string{}
+	for v := 1; v <= len(res.Locks); v++ {
+		if rk, ok := res.Rank[v]; ok {
+			ranks = append(ranks, fmt.Sprintf("(%d,%d%%nat)", v, rk))
+		}
+	}
+	b.WriteString("(mkConc\n   " + concCoqEdges(res) + "\n   [" + strings.Join(singles, "; ") + "] [" + strings.Join(ranks, "; ") + "]\n   [" + strings.Join(cyc, "; ") + "] " + coqBool(res.Observed) + "\n   " + final + "\n   ")
 	b.WriteString(fmt.Sprintf("%d %d %d %d)", len(res.Blocked), len(res.GoDeadlock), npanic, len(res.Races)))
 	return b.String()
 }
@@ -430,6 +447,9 @@ func concEngine(o *Opts) {
 		}
 		if len(res.Cycle) > 0 {
 			st.Count("cycle")
+		}
+		if len(res.Excused) > 0 {
+			st.Count("cases.with.single.role.cycle")
 		}
 		if len(res.Reentries) > 0 {
 			st.Count("cases.with.reentrant.rlock")
